@@ -121,3 +121,35 @@ Theorem C06_block_correspondence_sound : forall c s0 setup prog events seen0 fin
     finished cf 0 = true /\ outcomes_match (c_done (cl cf 0)) seen0 = true /\ disk_matches_b cf final = true.
 Proof. exact block_check_reaches. Qed.
 Print Assumptions C06_block_correspondence_sound.
+
+(* FanoutCache.transact: one shard transaction per shard, entered in the order read off the code and left in the reverse order
+   (model/FanoutBlock.v).  "All-or-nothing" for the WHOLE cache is false as soon as the block changes two shards (finding C06-F6: a
+   reader between two shard COMMITs sees the block half applied); per shard it holds at every point, and a block that changes at most
+   one shard is all-or-nothing for the whole cache.  `k` = number of shard COMMITs executed. *)
+From DC Require Import FanoutBase Gen_Fanout Fanout FanoutBlock FanoutBlockFacts.
+
+Theorem C06_fanout_block_all_or_nothing_refuted :
+  cache_view Z 2 1 w_old w_new = [0; 2]%Z /\ all_or_nothing Z Z.eqb 2 1 w_old w_new = false.
+Proof. exact (conj (proj1 fanout_block_torn_between_commits) (proj1 (proj2 fanout_block_torn_between_commits))). Qed.
+Print Assumptions C06_fanout_block_all_or_nothing_refuted.
+
+Theorem C06_fanout_block_per_shard : forall (S : Type) order k (old new : nat -> S) i,
+  shard_view S order k old new i = old i \/ shard_view S order k old new i = new i.
+Proof. exact per_shard_all_or_nothing. Qed.
+Print Assumptions C06_fanout_block_per_shard.
+
+Theorem C06_fanout_block_partial : forall (S : Type) (eqb : S -> S -> bool), (forall a b, eqb a b = true <-> a = b) ->
+  forall n k (old new : nat -> S) j,
+  (forall i, (i < n)%nat -> i <> j -> old i = new i) ->
+  cache_view S n k old new = all_of S n old \/ cache_view S n k old new = all_of S n new.
+Proof. intros S eqb H. exact (one_shard_block_all_or_nothing S). Qed.
+Print Assumptions C06_fanout_block_partial.
+
+(* exactly when the half-applied state can be seen *)
+Theorem C06_fanout_block_torn_iff : forall (S : Type) (eqb : S -> S -> bool), (forall a b, eqb a b = true <-> a = b) ->
+  forall n k (old new : nat -> S),
+  (cache_view S n k old new <> all_of S n old /\ cache_view S n k old new <> all_of S n new) <->
+  (exists i, (i < n)%nat /\ committed (fan_commit_order n) k i = true /\ old i <> new i) /\
+  (exists j, (j < n)%nat /\ committed (fan_commit_order n) k j = false /\ old j <> new j).
+Proof. exact torn_iff. Qed.
+Print Assumptions C06_fanout_block_torn_iff.
